@@ -147,6 +147,60 @@ example : fits (-256) 2 ∧ instrLen (-256) = 3 := by
   · unfold fits; decide
   · simp [instrLen, numNibbles, nibLoop]
 
+/-! ### Whole instruction streams
+
+    `C04` speaks of one instruction followed by arbitrary bytes; by induction the same holds for a
+    straight-line sequence of any length: decoding the concatenated chains with the ISA's prefix
+    rule gives back exactly the sequence of (opcode, operand) pairs, and the encoding of sequences
+    is injective. -/
+
+/-- bytes of a straight-line sequence of immediate instructions. -/
+def encodeAll (is : List (Nat × Word)) : List Byte :=
+  is.flatMap fun i => encode i.1 i.2.toInt (instrLen i.2.toInt)
+
+/-- decoding a whole stream with the ISA's prefix rule, instruction by instruction. -/
+def decodeAll : Nat → List Byte → Option (List (Nat × Word))
+  | 0, _ => none
+  | _, [] => some []
+  | fuel + 1, bs =>
+    match decodeInstr bs with
+    | some (opc, v, _, rest) => (decodeAll fuel rest).map ((opc, v) :: ·)
+    | none => none
+
+theorem C04_program (is : List (Nat × Word)) (h : ∀ i ∈ is, i.1 < 12) (fuel : Nat)
+    (hfuel : is.length < fuel) : decodeAll fuel (encodeAll is) = some is := by
+  induction is generalizing fuel with
+  | nil => cases fuel with
+    | zero => omega
+    | succ f => simp [encodeAll, decodeAll]
+  | cons i is ih =>
+    cases fuel with
+    | zero => omega
+    | succ f =>
+      have hi := h i (by simp)
+      have hne : encode i.1 i.2.toInt (instrLen i.2.toInt) ++ encodeAll is ≠ [] := by
+        simp [encode]
+      have hc : encodeAll (i :: is) = encode i.1 i.2.toInt (instrLen i.2.toInt) ++ encodeAll is := by
+        simp [encodeAll]
+      rw [hc]
+      have hd := C04 i.1 hi i.2 (encodeAll is)
+      have ih' := ih (fun j hj => h j (by simp [hj])) f (by simp at hfuel; omega)
+      generalize hb : encode i.1 i.2.toInt (instrLen i.2.toInt) ++ encodeAll is = bs at hd hne
+      cases bs with
+      | nil => exact absurd rfl hne
+      | cons b bs =>
+        simp only [decodeAll, hd, ih', Option.map_some]
+
+theorem C04_program_unique (is js : List (Nat × Word)) (h : ∀ i ∈ is, i.1 < 12)
+    (h' : ∀ j ∈ js, j.1 < 12) (he : encodeAll is = encodeAll js) : is = js := by
+  have a := C04_program is h (is.length + js.length + 1) (by omega)
+  have b := C04_program js h' (is.length + js.length + 1) (by omega)
+  rw [he, b] at a
+  exact (Option.some.inj a).symm
+
+example : decodeAll 3 (encodeAll [(3, -1#32), (9, 16#32)]) = some [(3, -1#32), (9, 16#32)] :=
+  C04_program _ (by decide) 3 (by decide)
+
 /-- Non-vacuity / regression examples, including the value the pinned tree got wrong. -/
 example : encode 3 (-2147483648) (instrLen (-2147483648)) = [0xF8, 0xE0, 0xE0, 0xE0, 0xE0, 0xE0, 0xE0, 0x30] := by
   have : instrLen (-2147483648) = 8 := by simp [instrLen, numNibbles, nibLoop]
